@@ -325,6 +325,10 @@ func Render(p *Project, units []Unit) []string {
 	for k, f := range files {
 		body := f.body.String()
 		var sb strings.Builder
+		if strings.Contains(k.file, "generated") {
+			// the standard marker of machine-written sources; such files are ordinary Go files of the package
+			sb.WriteString("// Code generated by scaffold. DO NOT EDIT.\n\n")
+		}
 		sb.WriteString("package " + pkgName(k.pkg) + "\n\n")
 		var imps []string
 		for imp := range f.imports {
